@@ -1,7 +1,7 @@
 (* FramePrefixEnc.v — truncation of ENCODED messages (C12): no proper prefix of
    a message produced by the encoder decodes; the failure is a library error;
    metadata-only decoding tolerates exactly the loss of section 5. *)
-From PBK Require Import Base Bits BitsProofs Frame FrameProofs FrameRoundtrip MdQuery MdQueryProofs FramePrefix.
+From PBK Require Import Base Bits BitsProofs Frame FrameProofs FrameRoundtrip FrameExamples MdQuery MdQueryProofs FramePrefix.
 From Coq Require Import ZifyBool ZifyNat ZifyN.
 
 Lemma sections_nbits_app a b : sections_nbits (a ++ b) = (sections_nbits a + sections_nbits b)%nat.
@@ -55,12 +55,11 @@ Proof.
   apply take_bits_ok in Ht as [-> Lb]. rewrite app_length, Lb. change (Z.to_nat (32 / 8)) with 4%nat. lia.
 Qed.
 
-Section EncodedTruncation.
+Section InfoNbits.
 Variable decode_data : list (pname * pvalue) -> reader -> result (bits * reader).
 Hypothesis decode_data_prefix : forall p r b r', decode_data p r = Ok (b, r') -> r = b ++ r'.
 Hypothesis decode_data_suffix : forall p r b r' s,
   decode_data p r = Ok (b, r') -> decode_data p (r ++ s) = Ok (b, r' ++ s).
-Hypothesis decode_data_cuts : forall p, cuts (decode_data p).
 
 (* whenever the full decode succeeds, the metadata-only decode succeeds and has
    consumed everything but the 32 bits of section 5 *)
@@ -94,6 +93,15 @@ Proof.
   eexists. split; [reflexivity|]. cbn [m_sections].
   rewrite !sections_nbits_app. cbn [sections_nbits]. lia.
 Qed.
+
+End InfoNbits.
+
+Section EncodedTruncation.
+Variable decode_data : list (pname * pvalue) -> reader -> result (bits * reader).
+Hypothesis decode_data_prefix : forall p r b r', decode_data p r = Ok (b, r') -> r = b ++ r'.
+Hypothesis decode_data_suffix : forall p r b r' s,
+  decode_data p r = Ok (b, r') -> decode_data p (r ++ s) = Ok (b, r' ++ s).
+Hypothesis decode_data_cuts : forall p, cuts (decode_data p).
 
 Lemma message_bytes_le_nbits : forall sig info ign s m,
   decode_message decode_data sig info ign s = Ok m ->
@@ -164,7 +172,7 @@ Theorem encoded_info_prefix : forall ign json m,
 Proof.
   intros ign json m Henc Hfits Hdfs Hdat.
   destruct (encoded_decodes _ _ _ Henc Hfits Hdfs Hdat) as (m' & Hdec & Hb & Hn & Hsi & H12).
-  destruct (info_from_full_nbits _ _ _ _ Hdec) as (mi & Hi & Hni).
+  destruct (info_from_full_nbits decode_data decode_data_prefix decode_data_suffix _ _ _ _ Hdec) as (mi & Hi & Hni).
   exists mi. split; [exact Hi|]. split; [lia|].
   intros k. pose proof (message_cut decode_data decode_data_cuts _ _ _ _ _ Hi k) as C.
   unfold holds_message in C. rewrite Hsi in C. cbn [sig_len] in C. change (length sig_BUFR) with 4%nat in C.
@@ -176,3 +184,181 @@ Proof.
 Qed.
 
 End EncodedTruncation.
+
+(* ------------------------------------------------------------------------ *)
+(* executable forms of the hypotheses                                        *)
+(* ------------------------------------------------------------------------ *)
+Definition sec_fitsb (s : section) : bool := fits_layout [] (sec_params s) (map snd (sec_values s)).
+
+Lemma sec_fitsb_sound l : forallb sec_fitsb l = true -> Forall sec_fits l.
+Proof. intros H. apply Forall_forall. intros s Hs. rewrite forallb_forall in H. exact (H s Hs). Qed.
+
+Lemma desc_fill_okb_all l : forallb desc_fill_okb l = true -> Forall desc_fill_ok l.
+Proof.
+  intros H. apply Forall_forall. intros s Hs. rewrite forallb_forall in H.
+  apply desc_fill_okb_sound, H, Hs.
+Qed.
+
+(* the template decoder, run on exactly the data bits the encoder was given
+   (with the attributes of the sections before), consumes all of them *)
+Definition data_ok_secb (dd : list (pname * pvalue) -> reader -> result (bits * reader))
+    (props : list (pname * pvalue)) (s : section) : bool :=
+  match rev (sec_params s), rev (map snd (sec_values s)) with
+  | t :: rfx, PData b :: rvfx =>
+      match p_type t with
+      | TData => match dd (add_props (rev rfx) (rev rvfx) props) b with
+                 | Ok (_, []) => true
+                 | _ => false
+                 end
+      | _ => true
+      end
+  | _, _ => true
+  end.
+
+Fixpoint data_okb (dd : list (pname * pvalue) -> reader -> result (bits * reader))
+    (props : list (pname * pvalue)) (new : list section) : bool :=
+  match new with
+  | [] => true
+  | s :: r => data_ok_secb dd props s &&
+              data_okb dd (add_props (sec_params s) (map snd (sec_values s)) props) r
+  end.
+
+Section BoolForms.
+Variable decode_data : list (pname * pvalue) -> reader -> result (bits * reader).
+Hypothesis decode_data_prefix : forall p r b r', decode_data p r = Ok (b, r') -> r = b ++ r'.
+Hypothesis decode_data_suffix : forall p r b r' s,
+  decode_data p r = Ok (b, r') -> decode_data p (r ++ s) = Ok (b, r' ++ s).
+
+Lemma data_ok_secb_sound props s : data_ok_secb decode_data props s = true -> data_ok_sec decode_data props s.
+Proof.
+  unfold data_ok_secb, data_ok_sec. intros H fx t vfx b Hp Ht Hv rest.
+  rewrite Hp, Hv, !rev_app_distr in H. cbn [rev app] in H. rewrite Ht, !rev_involutive in H.
+  destruct (decode_data (add_props fx vfx props) b) as [[b' r']|e] eqn:E; [|discriminate].
+  destruct r'; [|discriminate].
+  pose proof (decode_data_prefix _ _ _ _ E) as Eb. rewrite app_nil_r in Eb. subst b'.
+  apply (decode_data_suffix _ _ _ _ rest) in E. exact E.
+Qed.
+
+Lemma data_okb_sound : forall new props, data_okb decode_data props new = true -> data_ok decode_data props new.
+Proof.
+  induction new as [|s new IH]; intros props H; [exact I|].
+  cbn [data_okb] in H. apply andb_true_iff in H as [H1 H2]. split; [apply data_ok_secb_sound, H1|apply IH, H2].
+Qed.
+End BoolForms.
+
+(* ------------------------------------------------------------------------ *)
+(* the template-decoder stub of the correspondence runs                      *)
+(* ------------------------------------------------------------------------ *)
+Lemma stub_dd_cuts : forall p, cuts (stub_dd p).
+Proof.
+  intros p. unfold stub_dd. destruct (existsb _ _); [apply cuts_err|apply cuts_take_bits].
+Qed.
+
+Theorem message_cut_stub : forall sig info ign s m,
+  decode_message stub_dd sig info ign s = Ok m ->
+  forall k,
+    if holds_message sig s m k
+    then decode_message stub_dd sig info ign (firstn k s) = Ok m
+    else lib_fail (decode_message stub_dd sig info ign (firstn k s)).
+Proof. exact (message_cut stub_dd stub_dd_cuts). Qed.
+
+Theorem encoded_prefix_fails_stub : forall ign json m k,
+  encode_message ign json = Ok m ->
+  forallb sec_fitsb (m_sections m) = true -> forallb desc_fill_okb (m_sections m) = true ->
+  data_okb stub_dd [] (m_sections m) = true ->
+  (k < length (m_bytes m))%nat ->
+  lib_fail (decode_message stub_dd (Some sig_BUFR) false false (firstn k (m_bytes m))).
+Proof.
+  intros ign json m k Henc Hf Hd Hdat Hk.
+  apply (encoded_prefix_fails stub_dd stub_dd_prefix stub_dd_suffix stub_dd_cuts ign json m k Henc);
+    [apply sec_fitsb_sound, Hf|apply desc_fill_okb_all, Hd|
+     apply (data_okb_sound stub_dd stub_dd_prefix stub_dd_suffix), Hdat|exact Hk].
+Qed.
+
+Theorem encoded_info_prefix_stub : forall ign json m,
+  encode_message ign json = Ok m ->
+  forallb sec_fitsb (m_sections m) = true -> forallb desc_fill_okb (m_sections m) = true ->
+  data_okb stub_dd [] (m_sections m) = true ->
+  exists mi,
+    decode_message stub_dd (Some sig_BUFR) true false (m_bytes m) = Ok mi /\
+    sections_nbits (m_sections mi) = (8 * (length (m_bytes m) - 4))%nat /\
+    forall k,
+      ((length (m_bytes m) - 4 <= k)%nat ->
+         decode_message stub_dd (Some sig_BUFR) true false (firstn k (m_bytes m)) = Ok mi) /\
+      ((k < length (m_bytes m) - 4)%nat ->
+         lib_fail (decode_message stub_dd (Some sig_BUFR) true false (firstn k (m_bytes m)))).
+Proof.
+  intros ign json m Henc Hf Hd Hdat.
+  apply (encoded_info_prefix stub_dd stub_dd_prefix stub_dd_suffix stub_dd_cuts ign json m Henc);
+    [apply sec_fitsb_sound, Hf|apply desc_fill_okb_all, Hd|
+     apply (data_okb_sound stub_dd stub_dd_prefix stub_dd_suffix), Hdat].
+Qed.
+
+(* ------------------------------------------------------------------------ *)
+(* non-vacuity: concrete messages (edition 3 with section 2; edition 4        *)
+(* without; edition 2), every truncation point computed                       *)
+(* ------------------------------------------------------------------------ *)
+Definition lib_failb {A} (x : result A) : bool :=
+  match x with Err e => is_lib_err e | Ok _ => false end.
+
+Lemma lib_failb_iff {A} (x : result A) : lib_failb x = true <-> lib_fail x.
+Proof.
+  unfold lib_failb, lib_fail. destruct x as [a|e]; split.
+  - discriminate.
+  - intros (e & E & _). discriminate.
+  - intros H. exists e. auto.
+  - intros (e' & E & H). injection E as ->. exact H.
+Qed.
+
+(* edition 4, no section 2, two subsets of two 031031: 4 data bits *)
+Definition ex4_json : list (list pvalue) :=
+  [[PBytes sig_BUFR; PUint 0; PUint 4];
+   [PUint 0; PUint 0; PUint 7; PUint 0; PUint 0; PBool false; PBin (zeros 7); PUint 2; PUint 0; PUint 0;
+    PUint 33; PUint 0; PUint 2024; PUint 5; PUint 17; PUint 12; PUint 30; PUint 0];
+   [PUint 0; PBin (zeros 8); PUint 2; PBool true; PBool false; PBin (zeros 6); PDescs [31031; 31031]];
+   [PUint 0; PBin (zeros 8); PData [true; false; true; true]];
+   [PBytes sig_7777]]%Z.
+
+(* edition 2, section 2 present *)
+Definition ex2_json : list (list pvalue) :=
+  [[PBytes sig_BUFR; PUint 0; PUint 2];
+   [PUint 0; PUint 0; PUint 98; PUint 0; PBool true; PBin (zeros 7); PUint 2; PUint 0;
+    PUint 33; PUint 0; PUint 24; PUint 5; PUint 17; PUint 12; PUint 30; PUint 0];
+   [PUint 0; PBin (zeros 8); PBin [true; true; false]];
+   [PUint 0; PBin (zeros 8); PUint 1; PBool true; PBool false; PBin (zeros 6); PDescs [31031]];
+   [PUint 0; PBin (zeros 8); PData [true]];
+   [PBytes sig_7777]]%Z.
+
+Definition ex_hyps (json : list (list pvalue)) : bool :=
+  match encode_message true json with
+  | Ok m => forallb sec_fitsb (m_sections m) && forallb desc_fill_okb (m_sections m) &&
+            data_okb stub_dd [] (m_sections m)
+  | Err _ => false
+  end.
+
+Definition ex_all_prefixes_fail (json : list (list pvalue)) : bool :=
+  match encode_message true json with
+  | Ok m => forallb (fun k => lib_failb (decode_message stub_dd (Some sig_BUFR) false false (firstn k (m_bytes m))))
+                    (seq 0 (length (m_bytes m))) &&
+            is_ok (decode_message stub_dd (Some sig_BUFR) false false (m_bytes m))
+  | Err _ => false
+  end.
+
+Definition ex_info_prefixes (json : list (list pvalue)) : bool :=
+  match encode_message true json with
+  | Ok m =>
+      let L := length (m_bytes m) in
+      forallb (fun k => lib_failb (decode_message stub_dd (Some sig_BUFR) true false (firstn k (m_bytes m))))
+              (seq 0 (L - 4)) &&
+      forallb (fun k => is_ok (decode_message stub_dd (Some sig_BUFR) true false (firstn k (m_bytes m))))
+              (seq (L - 4) 5)
+  | Err _ => false
+  end.
+
+Example truncation_nonvacuous :
+  ex_hyps (ex_json 0 0 0 0) = true /\ ex_hyps ex4_json = true /\ ex_hyps ex2_json = true /\
+  ex_all_prefixes_fail (ex_json 0 0 0 0) = true /\ ex_all_prefixes_fail ex4_json = true /\
+  ex_all_prefixes_fail ex2_json = true /\
+  ex_info_prefixes (ex_json 0 0 0 0) = true /\ ex_info_prefixes ex4_json = true /\
+  ex_info_prefixes ex2_json = true.
+Proof. repeat split; vm_compute; reflexivity. Qed.
